@@ -99,6 +99,10 @@ def run(ctx, model=None):
     for kind in (PR, P1):
         for pat in gen.all_patterns(3 if ctx.quick() else 5):
             check_case(ctx, gen.dead_shape_game(rng, kind, pat), model)
+    for k in range(12 if ctx.quick() else 200):
+        check_case(ctx, gen.tiny_reach_game(rng), model)
+    for k in range(3 if ctx.quick() else 20):
+        check_case(ctx, gen.slow_reward_game(rng), model, limit=60.0)
     N = 200 if ctx.quick() else 5000
     batch = []
     for k in range(N):
